@@ -292,7 +292,7 @@ def report(pid, tier, seed, mod, cases, results, wall, a):
           f'errors={len(errors)} wall={wall:.1f}s solver={stats.get("solver_s", 0)}s')
     if a.v or errors:
         for r in good:
-            print('  ', r['case'], r.get('npaths'), r['obligations'], r['discharged'], r['unknown'], r.get('path_status'), r.get('wall_s'), r['aborted'][:2], r['nonrepro'][:1])
+            print('  ', r['case'], r.get('npaths'), r['obligations'], r['discharged'], r['unknown'], r.get('path_status'), r.get('wall_s'), r['aborted'][:2], [(n['obligation'][:60], n['reason'][:80]) for n in r['nonrepro'][:2]])
         for e in errors: print('  ERROR', e['case'], e['error'], e.get('tb', '')[-1500:])
     if nviol: return 1
     if errors or vacuous:
